@@ -110,6 +110,10 @@ func (g *Global) LLString() string {
 	fmt.Fprintf(buf, "%s =", g.Ident())
 	if g.Linkage != enum.LinkageNone {
 		fmt.Fprintf(buf, " %s", g.Linkage)
+	} else if g.Init == nil {
+		// A global declaration (i.e. a global without initializer) requires an
+		// external linkage; `external` being the default.
+		fmt.Fprintf(buf, " %s", enum.LinkageExternal)
 	}
 	if g.Preemption != enum.PreemptionNone {
 		fmt.Fprintf(buf, " %s", g.Preemption)
